@@ -99,13 +99,14 @@ func H_C07_importblock() {
 // two (or three) distinct keys that render to the same text: the order of their pairs must not
 // follow the map iteration order
 func H_C07_dict_samekeys() {
-	n := 2 + nondetChoice("n", 1+verifTier())
+	n := 2 + nondetChoice("n", 2+verifTier())
 	d := Dict{}
 	for i := 0; i < n; i++ {
 		k := &symCode{id: dictKeyIDs[i]}
 		verifAssume(!nondetBool("null_" + dictKeyIDs[i]))
 		verifAssume(nondetString("out_"+dictKeyIDs[i]) == nondetString("out_k0"))
-		v := &symCode{id: dictValIDs[i]}
+		// values with fixed, distinct first bytes: the tie-break between them is decided syntactically
+		v := &leadCode{id: dictValIDs[i], lead: leadBytes[i]}
 		verifAssume(!nondetBool("null_" + dictValIDs[i]))
 		d[k] = v
 	}
